@@ -14,7 +14,7 @@ import re
 from .core import norm_src
 
 SHAPE = re.compile(r"^(_?n(q|u|la_\w+)\d?|_n[qu]\d?|n[qu]\d?|[qu]DOF\d?|la_\w+DOF|my_[qu]DOF|name|xi\d?|nla_\w+|\w*_cache|subsystem\d?|frame|rod|system"
-                   r"|nodalDOF\w*|elDOF\w*|n[qu]_element\w*|nnodes\w*|nelement\w*)$")
+                   r"|nodalDOF\w*|elDOF\w*|n[qu]_element\w*|nnodes\w*|nelement\w*|mesh\w*)$")
 OWNER_ATTRS = ("rod",)
 OWNER_SHAPE = re.compile(r"^(n(?!quadrature)\w*|nodalDOF\w*|elDOF\w*|[qu]DOF|la_\w+DOF|name|mesh\w*|polynomial_degree\w*)$")
 
@@ -133,3 +133,36 @@ def check(rep, rule, view, rel, cname, primal, deriv, lineno=0):
                 f"so `{deriv}` differentiates another function than `{primal}`{why}", f"{rel}:{lineno}")
     else:
         rep.ok(rule, C, f"data read by {deriv} ⊆ data read by {primal} ({len(dd)} ⊆ {len(dp)})")
+
+
+# pairs for which reading more data than the primal is correct, with the reason (confirmed by reading the code)
+K5_EXCEPTIONS = {
+    ("Frame", "v_P"): "the prescribed motion is supplied together with its time derivatives r_OP_t__, A_IB_t__ (time companions, not data of r_OP)",
+    ("Frame", "a_P"): "second time derivatives r_OP_tt__, A_IB_tt__ of the prescribed motion",
+    ("Revolute", "l_dot"): "self.axis is the immutable integer from which plane_axes (read by l) is built",
+}
+
+
+def check_k5_pairs(ctx, rule, class_names):
+    """K13 over every primal/derivative pair the K5 engine enumerates for the classes (product-rule pairs W_x -> Wla_x_q carry the
+    data of the multiplier as well and are skipped)."""
+    from . import deriv, protocol
+    rep = ctx.rep
+    n = 0
+    for cname in class_names:
+        ci = ctx.model.cls(cname)
+        v = ctx.model.variants(ci)[0]
+        k5 = deriv.K5(ctx, ci, v)
+        view = protocol.ClassView(ctx, ci, v)
+        seen = set()
+        for (p_, d_, dep) in deriv.pairs_of(k5):
+            if d_.startswith("Wla_") or (p_, d_) in seen:
+                continue
+            seen.add((p_, d_))
+            if (cname, d_) in K5_EXCEPTIONS:
+                rep.ok(rule, f"{ci.rel}:{cname}.{d_}", f"{p_} -> {d_}: exempt ({K5_EXCEPTIONS[(cname, d_)]})", trivial=True)
+                continue
+            c_, f_ = view.method(d_)
+            check(rep, rule, view, ci.rel, cname, p_, d_, lineno=getattr(f_, "lineno", 0))
+            n += 1
+    return n
